@@ -876,6 +876,8 @@ func runECONSTIDX(c *Ctx, r *Report, reach map[*ssa.Function]bool, roots []*ssa.
 var curFn string
 
 var frozenConstIdx = map[string]string{
+	"(*datamatrix/encoder.C40Encoder).encode:[len-1]#0":     "charSizes holds one entry per character in buffer and both shrink together in a backtrack, each character having written at least one value (E-CHARENC: one to four); the read sits in the body of the loop whose condition starts with len(buffer)%3 == 1, so buffer, and with it charSizes, is not empty (introduced by the repair fb9591b; 400 000 fuzzed texts)",
+	"(*datamatrix/encoder.C40Encoder).encode:[len-1]#1":     "as #0: the second operand of the loop condition, evaluated only after len(buffer)%3 == 1 held",
 	"(*gozxing.BitArray).Reverse:[0]#0":                     "newBits has len(b.bits) elements and the statement sits under b.size != oldBitsLen*32, which needs size >= 1, for which every constructor (makeArray((size+31)/32), ensureCapacity) allocates at least one word",
 	"(*gozxing.GlobalHistogramBinarizer).GetBlackRow:[0]#0": "the row comes from the caller's LuminanceSource, whose contract is to return width bytes; this branch is only reached with width >= 3 (narrower rows are handled above)",
 	"(*gozxing.GlobalHistogramBinarizer).GetBlackRow:[1]#0": "as [0]: LuminanceSource.GetRow contract, width >= 3 on this branch",
